@@ -1,6 +1,7 @@
 package e2e
 
 import (
+	"strings"
 	"fmt"
 	"os"
 	"testing"
@@ -144,6 +145,12 @@ func genBlockedWriteScenario(t *rapid.T) Scenario {
 	gen.Conns = []ConnSpec{cs}
 	n := rapid.IntRange(1, 3).Draw(t, "attempts")
 	var ups []vh.UpstreamAttempt
+	if rapid.Bool().Draw(t, "recoveryStage") {
+		// the first connection takes the first chunk completely and resets without acknowledging it: the chunk becomes a
+		// leftover, and it is while the leftover is re-sent on the next connection (recovery stage) that the write blocks
+		ups = append(ups, vh.UpstreamAttempt{Kind: "reset", After: 0})
+		sc.Family = "blocked-write-recovery"
+	}
 	for i := 0; i < n; i++ {
 		ups = append(ups, vh.UpstreamAttempt{Kind: "stopreading"})
 	}
@@ -264,8 +271,9 @@ func classify(sc Scenario, o *Outcome) (bool, []string) {
 	add(down, "upstream-down")
 	add(mid, "stop-mid-traffic")
 	add(sc.Family == "backlog", "backlog-being-worked-off-at-stop(family)")
-	add(sc.Family == "blocked-write", "upstream-never-reads-and-more-data-than-the-socket-buffers(family)")
-	if sc.Family == "blocked-write" && len(o.Stops) > 0 {
+	add(strings.HasPrefix(sc.Family, "blocked-write"), "upstream-never-reads-and-more-data-than-the-socket-buffers(family)")
+	add(sc.Family == "blocked-write-recovery", "write-blocks-while-a-leftover-is-re-sent(recovery stage)")
+	if strings.HasPrefix(sc.Family, "blocked-write") && len(o.Stops) > 0 {
 		m := o.Stops[0].Metrics
 		add(m.Sum("slogagent_process_output_forward_attempts_total") > m.Sum("slogagent_process_output_forwarded_chunks_total"), "a-send-did-not-complete(blocked mid-write, measured)")
 		add(m.Sum("slogagent_process_output_forward_attempts_total") > 0 && m.Sum("slogagent_process_output_forwarded_chunks_total") == 0, "first-send-blocked-with-nothing-awaiting-ack(measured)")
